@@ -446,8 +446,6 @@ class io_uring_context::read_sender {
 
     void start_io() noexcept {
       UNIFEX_ASSERT(context_.is_running_on_io_thread());
-      stopCallback_.construct(
-          get_stop_token(receiver_), cancel_callback{*this});
       auto populateSqe = [this](io_uring_sqe& sqe) noexcept {
         sqe.opcode = IORING_OP_READV;
         sqe.fd = fd_;
@@ -463,7 +461,14 @@ class io_uring_context::read_sender {
       if (!context_.try_submit_io(populateSqe)) {
         this->execute_ = &operation::on_schedule_complete;
         context_.schedule_pending_io(this);
+        return;
       }
+
+      // Register for stop requests only once the request is in the submission
+      // queue: a callback that runs inline (stop already requested) must queue
+      // its IORING_OP_ASYNC_CANCEL behind the request it is meant to cancel.
+      stopCallback_.construct(
+          get_stop_token(receiver_), cancel_callback{*this});
     }
 
     void request_stop() noexcept {
@@ -647,8 +652,6 @@ class io_uring_context::write_sender {
 
     void start_io() noexcept {
       UNIFEX_ASSERT(context_.is_running_on_io_thread());
-      stopCallback_.construct(
-          get_stop_token(receiver_), cancel_callback{*this});
       auto populateSqe = [this](io_uring_sqe& sqe) noexcept {
         sqe.opcode = IORING_OP_WRITEV;
         sqe.fd = fd_;
@@ -664,7 +667,14 @@ class io_uring_context::write_sender {
       if (!context_.try_submit_io(populateSqe)) {
         this->execute_ = &operation::on_schedule_complete;
         context_.schedule_pending_io(this);
+        return;
       }
+
+      // Register for stop requests only once the request is in the submission
+      // queue: a callback that runs inline (stop already requested) must queue
+      // its IORING_OP_ASYNC_CANCEL behind the request it is meant to cancel.
+      stopCallback_.construct(
+          get_stop_token(receiver_), cancel_callback{*this});
     }
 
     void request_stop() noexcept {
